@@ -448,13 +448,15 @@ class GIRParser(object):
         self._namespace.track(func)
         return func
 
+    def _find_field_nodes(self, node):
+        names = (_corens('field'), _corens('record'), _corens('union'), _corens('callback'))
+        return [child for child in node if child.tag in names]
+
     def _parse_fields(self, node, obj):
         res = []
-        names = (_corens('field'), _corens('record'), _corens('union'), _corens('callback'))
-        for child in node:
-            if child.tag in names:
-                fieldobj = self._parse_field(child, obj)
-                res.append(fieldobj)
+        for child in self._find_field_nodes(node):
+            fieldobj = self._parse_field(child, obj)
+            res.append(fieldobj)
         return res
 
     def _parse_compound(self, cls, node):
@@ -480,9 +482,11 @@ class GIRParser(object):
                 func.is_method = True
                 func.is_inline = True
                 compound.methods.append(func)
-            for i, fieldnode in enumerate(self._find_children(node, _corens('field'))):
-                field = compound.fields[i]
-                self._parse_type_array_length(compound.fields, fieldnode, field.type)
+            # compound.fields has one entry per member, the anonymous <record>,
+            # <union> and <callback> members included
+            for fieldnode, field in zip(self._find_field_nodes(node), compound.fields):
+                if fieldnode.tag == _corens('field'):
+                    self._parse_type_array_length(compound.fields, fieldnode, field.type)
             for func in self._find_children(node, _corens('function')):
                 compound.static_methods.append(
                     self._parse_function_common(func, ast.Function, compound))
